@@ -22,22 +22,35 @@ CONSTANTS
   RegionLens = {{{regionlens}}}
   Kinds = {{{kinds}}}
   FailSends = {failsends}
+  DiscardSets = {discard}
 INVARIANTS TypeOK OneReceiver DeadQueuesEmpty DeliveredOnce {export}
 {view}
 """
 
 
 def gen(wd, name, agents=(0,), maxch=2, maxreg=1, maxslots=1, maxsets=0, maxops=4, maxqueue=2, regionlens=(1,),
-        kinds=("typed",), failsends=False, minops=0, simulate=None, depth=None, export=True, workers=8, tlcseed=None, view=False,
-        timeout=3000):
+        kinds=("typed",), failsends=False, discard=False, minops=0, simulate=None, depth=None, export=True, workers=8, tlcseed=None, view=False,
+        timeout=3000, story=None):
+    """story: a sequence of operation names ("*" = any) the first operations of every generated behaviour must follow
+    (set members are added in ascending handle order): a directed exhaustive exploration of what may happen AFTER a
+    prescribed prelude, e.g. a set with four members, one closure, any operation, another look at the set."""
     cfg = os.path.join(wd, name + ".cfg")
+    spec = os.path.join(SPEC, "MCChannels.tla")
+    if story:
+        mod = "S_" + name.replace("-", "_")
+        spec = os.path.join(wd, mod + ".tla")
+        with open(spec, "w") as f:
+            f.write("---- MODULE %s ----\nEXTENDS MCChannels\nStory == <<%s>>\n"
+                    "StoryOK == /\\ \\A i \\in 1..Len(log) : i <= Len(Story) => (Story[i] = \"*\" \\/ log[i].op = Story[i])\n"
+                    "           /\\ \\A i, j \\in 1..Len(log) : (i < j /\\ log[i].op = \"setadd\" /\\ log[j].op = \"setadd\") => log[i].h < log[j].h\n"
+                    "====\n" % (mod, ", ".join('"%s"' % x for x in story)))
     with open(cfg, "w") as f:
         f.write(CFG.format(agents=", ".join(map(str, agents)), maxch=maxch, maxreg=maxreg, maxslots=maxslots, maxsets=maxsets,
                            maxops=maxops, minops=minops, maxqueue=maxqueue, pick="random" if simulate else "all", regionlens=", ".join(map(str, regionlens)),
-                           kinds=", ".join('"%s"' % k for k in kinds), failsends="TRUE" if failsends else "FALSE", export="Export" if export else "",
-                           view="VIEW View" if view else ""))
-    r = run_tlc(os.path.join(SPEC, "MCChannels.tla"), cfg, workers=workers, simulate=simulate, depth=depth,
-                tlcseed=tlcseed, timeout=timeout)
+                           kinds=", ".join('"%s"' % k for k in kinds), failsends="TRUE" if failsends else "FALSE", discard="TRUE" if discard else "FALSE", export="Export" if export else "",
+                           view="VIEW View" if view else "") + ("CONSTRAINT StoryOK\n" if story else ""))
+    r = run_tlc(spec, cfg, workers=workers, simulate=simulate, depth=depth, tlcseed=tlcseed, timeout=timeout,
+                **({"cwd": wd} if story else {}))
     return r
 
 
@@ -155,6 +168,9 @@ def campaign(pid, plans, nontrivial, what):
             import random
             rnd = random.Random(seed())
             behs = rnd.sample(behs, pl["limit"])
+        if pl.get("bystander"):
+            for b in behs:
+                b["bystander"] = True
         verdicts = replay(wd, pl["name"], variant, pl.get("mode", "thread"), behs, sb=pl.get("sb", 4096))
         nbad = 0
         for b, v in zip(behs, verdicts):
